@@ -197,7 +197,7 @@ def obligations():
     obs.append(Obligation("C10.generated_names.b", _ob(3, GENERATED_LABELS, [None]), kind="smallscope", functions=fs, max_paths=400000, time_budget_s=600,
                           bound=f"every triple of streams over {len(GENERATED_LABELS)} labels that address or resemble generated unit-operation zones, no tree (exhaustive)",
                           doc="CONSERVED: generated unit-operation names never take over an existing zone"))
-    base3 = Obligation("C10.conserved3.b", _ob(3), kind="smallscope", tier="thorough", functions=fs, max_paths=4000000, time_budget_s=7200,
+    base3 = Obligation("C10.conserved3.b", _ob(3), kind="smallscope", tier="thorough", functions=fs, max_paths=4000000, time_budget_s=3000,
                        bound=f"every triple of streams over {len(LABELS)} labels (exhaustive)")
     obs += split(base3, zone_tree=TREES, label0=LABELS)
     from . import C19
